@@ -24,6 +24,7 @@ RULE = ("seeded datasets (1-4 parameter dims of size 1-4 named a-d or like keywo
         "values) x both null criteria x ignore_dims spellings (None, str, list, set) x Dataset/DataArray inputs; "
         "parse_into_cases with combos/cases incl. absent coordinates and partial locations; complex-valued variables with infinities / NaNs in either part; datasets of 2*10**5 and more numbers; searches repeated on the same object after its holes were filled in place; find->harvest->find loops; "
         "distinct by dataset spec; non-trivial when at least one location is missing and one is not")
+RULE += '; internal axes of one entry or none (a variable over an empty axis holds no data anywhere, the others decide)'
 ASSUMPTIONS = [
     "grid order = itertools.product order over the returned argument names, each in the dataset's coordinate order",
     "isfinite criterion is exercised on numeric variables only (np.isfinite is undefined on str data)",
